@@ -88,6 +88,10 @@ struct CommitQueue {
 	// tail = index of oldest data in queue (low 32 bits)
 	head_tail: AtomicU64,
 	slots: [AtomicPtr<CommitBatch>; MAX_CONCURRENT_COMMITS],
+	// Serialises consumers. A consumer dereferences the raw pointer it read from
+	// the tail slot; without this, another consumer could dequeue that batch and
+	// drop the last reference in between, and the first one would read freed memory.
+	consumer: Mutex<()>,
 }
 
 impl CommitQueue {
@@ -95,6 +99,7 @@ impl CommitQueue {
 		Self {
 			head_tail: AtomicU64::new(0),
 			slots: std::array::from_fn(|_| AtomicPtr::new(std::ptr::null_mut())),
+			consumer: Mutex::new(()),
 		}
 	}
 
@@ -141,6 +146,7 @@ impl CommitQueue {
 	// Multi-consumer dequeue - removes the earliest enqueued Batch, if it is
 	// applied
 	fn dequeue_applied(&self) -> Option<Arc<CommitBatch>> {
+		let _one_consumer = self.consumer.lock();
 		loop {
 			let ptrs = self.head_tail.load(Ordering::Acquire);
 			let (head, tail) = self.unpack(ptrs);
